@@ -334,10 +334,13 @@ class Ctx:
             "wall_s": round(wall, 2),
             "violations": len(self.violations),
         }
-        os.makedirs(os.path.join(VERIF, "evidence"), exist_ok=True)
-        tmp = os.path.join(VERIF, "evidence", ".%s.json.tmp" % self.pid)
+        # evidence of runs against a scratch copy of the repository (development: mutation tests) never lands in /verif/evidence
+        evdir = os.path.join(VERIF, "evidence") if REPO == "/repo" and not os.environ.get("VERIF_DEV_SKIP_DESIGN") \
+            else os.path.join(tempfile.gettempdir(), "verif-evidence-dev")
+        os.makedirs(evdir, exist_ok=True)
+        tmp = os.path.join(evdir, ".%s.json.tmp" % self.pid)
         json.dump(ev, open(tmp, "w"), indent=1, default=str)
-        os.replace(tmp, os.path.join(VERIF, "evidence", "%s.json" % self.pid))
+        os.replace(tmp, os.path.join(evdir, "%s.json" % self.pid))
         shutil.rmtree(self.scratch, ignore_errors=True)
         if self.violations:
             for v in self.violations[:5]:
